@@ -749,20 +749,37 @@ def main():
             # approxBoundFootprint over the same history of requests vs the extracted cache model (run_requests approx)
             rq = [rs for rs in r["steps"] if "req" in rs]
             if len(rq) == sum(1 for st in case["steps"] if st["query"] != "flat") and rq:
-                line = drv(["SLAB " + str(len(rq)) + " " + " ".join(hx(rs["req"][0]) + " " + hx(rs["req"][1]) for rs in rq)])[0]
+                args = str(len(rq)) + " " + " ".join(hx(rs["req"][0]) + " " + hx(rs["req"][1]) for rs in rq)
+                lines = drv(["SLAB " + args, "SLABF " + args])      # padding rule of the code / of branch fix-C04-footprint-slab-padding
                 if not drv.collecting:
-                    slabs = [[Fraction(int(a.split("/")[0], 0), int(a.split("/")[1], 0)) for a in t.split(":")] for t in line.split()]
-                    for k, (rs, (mc, mh)) in enumerate(zip(rq, slabs)):
-                        lo, hi = float(mc - mh / 2), float(mc + mh / 2)
-                        tol = 1e-6 + 2e-5 * float(mh)
+                    verdicts = {}
+                    for rule, line in zip(("z-scaled", "flat"), lines):
+                        slabs = [[Fraction(int(a.split("/")[0], 0), int(a.split("/")[1], 0)) for a in t.split(":")] for t in line.split()]
+                        bad = None
+                        for k, (rs, (mc, mh)) in enumerate(zip(rq, slabs)):
+                            lo, hi = float(mc - mh / 2), float(mc + mh / 2)
+                            tol = 1e-6 + 2e-5 * float(mh)
+                            if abs(rs["api_z"][0] - lo) > tol or abs(rs["api_z"][1] - hi) > tol:
+                                bad = dict(step_among_footprint_queries=k, request=rs["req"], returned_z=rs["api_z"], model_z=[lo, hi], padding_rule=rule)
+                                break
+                        verdicts[rule] = (bad, slabs)
+                    for k, rs in enumerate(rq):
                         cz, hz = rs["req"]
-                        rep = dict(case=case, step_among_footprint_queries=k, request=rs["req"], returned_z=rs["api_z"], model_z=[lo, hi])
                         c.count(n=1)
-                        if rs["api_z"][0] > cz - hz / 2 + tol or rs["api_z"][1] < cz + hz / 2 - tol:
-                            c.violation("footprint-slab", "approxBoundFootprint returned a region that does not cover the requested z-interval", rep)
-                        elif abs(rs["api_z"][0] - lo) > tol or abs(rs["api_z"][1] - hi) > tol:
-                            c.violation("footprint-slab", "approxBoundFootprint differs from the cache model over the same history of requests", rep)
-                        c.hist("foothist:slab:" + ("first" if k == 0 else ("reused" if slabs[k] == slabs[k - 1] else "rebuilt")))
+                        if rs["api_z"][0] > cz - hz / 2 + 1e-6 or rs["api_z"][1] < cz + hz / 2 - 1e-6:
+                            c.violation("footprint-slab", "approxBoundFootprint returned a region that does not cover the requested z-interval",
+                                        dict(case=case, step_among_footprint_queries=k, request=rs["req"], returned_z=rs["api_z"]))
+                            break
+                    else:
+                        ok = [rule for rule in verdicts if verdicts[rule][0] is None]
+                        if not ok:
+                            c.violation("footprint-slab", "approxBoundFootprint differs from the cache model over the same history of requests (under either padding rule)",
+                                        dict(case=case, first_difference=verdicts["z-scaled"][0], first_difference_flat_rule=verdicts["flat"][0]))
+                        else:
+                            c.hist("foothist:slab-model:" + "+".join(ok))
+                            slabs = verdicts[ok[0]][1]
+                            for k in range(len(rq)):
+                                c.hist("foothist:slab:" + ("first" if k == 0 else ("reused" if slabs[k] == slabs[k - 1] else "rebuilt")))
             elif r["steps"]:
                 c.hist("foothist:slab-api-unavailable")
             c.count(("fh", case["footprint"], case["steps"]), nontrivial=reused > 0)
